@@ -13,7 +13,7 @@ for f in ("patch.diff", "demo.py"):
 meta = json.load(open(os.path.join(src, "meta.json")))
 meta["property"] = pid
 meta["round"] = rnd
-meta["confirmed_by_me"] = "applied to /repo with git apply; demo.py exit 1 with change, 0 without; check run; reverted with git checkout"
+meta["confirmed_by_me"] = ("tools/eval_seed.sh: patch applied in a scratch worktree of /repo; repository test suite there has the same failure set as the pristine tree; demo.py exit 1 with the change, 0 without; checks run from a private copy of /verif with VERIF_REPO pointing at the worktree; worktree reverted")
 meta["detection"] = detection
 json.dump(meta, open(os.path.join(dst, "meta.json"), "w"), indent=1)
 print(dst)
